@@ -210,10 +210,23 @@ REPRS = [("Dense", "C"), ("Dense", "F"),
 def make_repr(D, a, rng, rep):
     t, v = rep
     if t == "Dense":
-        return D.Dense(np.array(a, order=v))
+        return make_dense(D, a, v == "F")
     if t == "CSR":
         return make_csr(D, a, rng, v)
     return make_dia(D, a, rng, v)
+
+
+def make_dense(D, a, fortran):
+    """Dense holding `a` whose `fortran` flag is exactly the requested one -
+    also for a single row or column, where Dense(ndarray) would always report
+    Fortran order (NumPy flags such arrays as both) although kernels branch on
+    the flag."""
+    from qutip.core.data import dense as _dense
+    a = np.asarray(a, dtype=complex)
+    x = _dense.empty(a.shape[0], a.shape[1], bool(fortran))
+    x.as_ndarray()[:, :] = a
+    assert bool(x.fortran) == bool(fortran) and np.array_equal(x.to_array(), a)
+    return x
 
 
 def enc(a):
@@ -255,7 +268,7 @@ def from_raw(D, r):
     shape = tuple(r["shape"])
     if r["type"] == "Dense":
         arr = cv(r["data"]).reshape(shape, order="F" if r["fortran"] else "C")
-        return D.Dense(arr)
+        return make_dense(D, arr, r["fortran"])
     if r["type"] == "CSR":
         return D.CSR((cv(r["data"]), np.array(r["indices"], dtype=idxint_dtype),
                       np.array(r["indptr"], dtype=idxint_dtype)), shape=shape)
@@ -1093,14 +1106,13 @@ def coq_of(r):
 
 
 def canon_raw(r):
-    """raw dict -> comparable tuple (memory-order flag ignored for vectors,
-    where both orders are the same buffer)."""
+    """raw dict -> comparable tuple (the memory-order flag is compared for every
+    shape, single rows and columns included: kernels branch on it)."""
     if r is None:
         return None
     if r["type"] == "Dense":
         nr, nc = r["shape"]
-        f = bool(r["fortran"]) if (nr > 1 and nc > 1) else False
-        return ("Dense", nr, nc, f, [tuple(v) for v in r["data"]])
+        return ("Dense", nr, nc, bool(r["fortran"]), [tuple(v) for v in r["data"]])
     if r["type"] == "CSR":
         return ("CSR", r["shape"][0], r["shape"][1], list(r["indptr"]), list(r["indices"]),
                 [tuple(v) for v in r["data"]])
@@ -1121,8 +1133,7 @@ def canon_model(kind, v):
         return bool(v)
     if kind == "D":
         nr, nc, f, data = v
-        f = bool(f) if (nr > 1 and nc > 1) else False
-        return ("Dense", nr, nc, f, [tuple(x) for x in data])
+        return ("Dense", nr, nc, bool(f), [tuple(x) for x in data])
     if kind == "C":
         nr, nc, ip, ix, data = v
         return ("CSR", nr, nc, list(ip), list(ix), [tuple(x) for x in data])
@@ -1308,6 +1319,19 @@ def build_kernels(D):
               lambda a, e: raw(_kron.kron_csr(a[0], a[1])),
               lambda c, e: "vC (G_kron_csr %s %s)" % (c[0], c[1]), "C"))
 
+    def unstack_rows(rng, shapes):
+        n = shapes[0][0]
+        if rng.random() < 0.08:
+            return (rng.randint(1, n + 1), rng.random() < 0.5)
+        return (rng.choice([d for d in range(1, n + 1) if n % d == 0]), rng.random() < 0.5)
+    unstack_rows.needs_shape = True
+    K.append(("column_unstack_dense", ["Dense"], unstack_rows,
+              lambda a, e: raw(_resh.column_unstack_dense(a[0].copy(), e[0], e[1])),
+              lambda c, e: "vO vD (G_column_unstack_dense %s %s)" % (c[0], cnat(e[0])), "optD"))
+    K.append(("column_unstack_csr", ["CSR"], unstack_rows,
+              lambda a, e: raw(_resh.column_unstack_csr(a[0].copy(), e[0])),
+              lambda c, e: "vO vC (G_column_unstack_csr %s %s)" % (c[0], cnat(e[0])), "optC"))
+
     def clean_raws(args):
         return [raw_of(D, _dia.clean_dia(x)) for x in args]
     K.append(("isequal_dia", ["Dia", "Dia"], None,
@@ -1343,7 +1367,8 @@ def correspondence(ctx, D, rng, ncases):
     dk = dist.setdefault("corr_kernel", {})
     dv = dist.setdefault("corr_variant", {})
     weight = {"add_csr": 6, "isequal_dia": 3, "reshape_csr": 6, "reshape_dense": 2,
-              "column_stack_csr": 2, "kron_csr": 3, "dia.from_csr": 3, "add_dia": 6, "clean_dia": 2,
+              "column_stack_csr": 2, "column_unstack_dense": 4, "column_unstack_csr": 2,
+              "column_stack_dense": 2, "kron_csr": 3, "dia.from_csr": 3, "add_dia": 6, "clean_dia": 2,
               "tidyup_dia": 2, "matmul_csr": 6,
               "matmul_csr_dense_dense": 3, "matmul_csr_dense_dense[out]": 4,
               "inner_csr": 3, "inner_op_csr": 3, "inner_op_data[csr]": 2, "expect_csr": 4,
@@ -1378,6 +1403,9 @@ def correspondence(ctx, D, rng, ncases):
                 q = rng.choice([1, 2, 3])
                 shapes = [(q * q, q * q), (q * q + bad, 1)]
             malformed = bool(bad)
+        elif name.startswith("column_unstack"):
+            r_, c_ = rng.randint(1, 5), rng.randint(1, 5)
+            shapes = [(r_ * c_, 1) if rng.random() > 0.05 else (r_ * c_, 2)]
         elif name.startswith("matmul_csr"):
             k = rng.choice([1, 1, 2, 3, 4, 6])
             inner = shape[1] + (1 if rng.random() < 0.08 else 0)
